@@ -15,7 +15,7 @@ OnCommitted has not been called finds its cluster among the children of the last
 among the clusters of the last XDSConfig given to the channel; a repeated OnCommitted changes no
 reference count; when nothing is pending (no blocking callback, no uncommitted RPC) the service
 config lists only clusters of the current route configuration.  The cause tag in `[…]` comes from the
-model's ghost state (it only serves to tell the known finding F20 from anything else).
+model's ghost state (it only serves to tell the known finding F36 from anything else).
 -/
 namespace GrpcModel.Driver.S_clusterrefs
 open GrpcModel.Driver GrpcModel.ClusterRefs
